@@ -43,6 +43,11 @@ def _index_unchanged(self):
     state changed after construction is an observation reported in the evidence - a lazily filled cache is legitimate - the
     verdict on the property comes from comparing every answer with the oracle and with a fresh one-shot search."""
     try:
+        # observation only, so it is skipped for very large indexes (hundreds of thousands of variants), where it would dominate the run
+        big = next((v for v in vars(self).values() if isinstance(v, dict) and len(v) > 60000), None)
+        if big is not None:
+            _INV["skipped_large"] = _INV.get("skipped_large", 0) + 1
+            return True
         fp = _state_fp(self)
     except Exception:
         _INV["unobservable"] = _INV.get("unobservable", 0) + 1
@@ -257,7 +262,33 @@ def k_history(ctx, refs, k, steps, use_lookupdb=False):
         ctx.count("object_state_changes_observed_by_invariant", _INV.pop("changes"))
 
 
-KINDS = {"cross": k_cross, "lookupdb": k_lookupdb, "history": k_history}
+def k_cross_big(ctx, n_refs, n_queries, k, np_seed, n_cpu=None):
+    """One side with tens of thousands of sequences (positions beyond 2^15 / 2^16), the other small enough for the oracle."""
+    import pyrepseq.nn as nn
+    rng = random.Random(np_seed)
+    big = G.repertoire(rng, max(n_refs, n_queries), families=max(1, max(n_refs, n_queries) // 3))
+    small_n = min(n_refs, n_queries)
+    # the small side: copies / one-edit variants of sequences spread over the whole big side, including its very end
+    picks = [len(big) - 1 - 7 * i for i in range(small_n // 2)] + [rng.randrange(len(big)) for _ in range(small_n - small_n // 2)]
+    small = [big[p] if i % 3 == 0 else G.mutate(rng, big[p], G.AA, 1) for i, p in enumerate(picks)]
+    refs, queries = (big, small) if n_refs >= n_queries else (small, big)
+    exp = O.neigh_cross(queries, refs, k)
+    ctx.count("cross_big_cases")
+    ctx.count("cross_big_reference" if n_refs >= n_queries else "cross_big_queries")
+    ctx.nontriv(["cbig", n_refs, n_queries, k, np_seed, n_cpu])
+    ctx.sample("cross_big", {"n_refs": len(refs), "n_queries": len(queries), "k": k, "hits": sum(exp.values()), "n_cpu": n_cpu})
+    kw = {} if n_cpu is None else {"n_cpu": n_cpu}
+    out = ctx.call(nn.symdel, list(refs), max_edits=k, seqs2=list(queries), **kw)
+    S.expect_triplets(ctx, out, exp, "symdel", "cross-big")
+    out = ctx.call(nn.nearest_neighbor, list(refs), max_edits=k, seqs2=list(queries), **kw)
+    S.expect_triplets(ctx, out, exp, "nearest_neighbor", "cross-big")
+    db = ctx.call(nn.SymdelDB, list(refs), k)
+    if db.ok:
+        out = ctx.call(db.value.lookup, list(queries))
+        S.expect_triplets(ctx, out, exp, "SymdelDB.lookup", "cross-big")
+
+
+KINDS = {"cross": k_cross, "lookupdb": k_lookupdb, "history": k_history, "cross_big": k_cross_big}
 
 
 def _steps(rng, pool, n, with_faults=True):
@@ -291,10 +322,23 @@ def generate(tier, seed):
     u2 = G.universe("ACD", 2)
     for k in (1, 2, 3):
         yield "lookupdb", {"refs": u2, "queries": u2, "k": k}, True
+    # sequences of 30-110 letters with radii 3-5 (hundreds of thousands of deletion variants each)
+    for (L, k) in ((106, 3), (47, 4), (31, 5), (40, 3)) if thorough else ((40, 3), (24, 4)):
+        base = G.rand_string(rng, G.AA, L + 1, L + 1)
+        refs = [base, G.mutate(rng, base, G.AA, 1), base[:-1] + "WW"]
+        queries = [base[1:], base[:L // 2] + base[L // 2 + 1:], base, G.rand_string(rng, G.AA, L, L)]
+        yield "cross", {"refs": refs, "queries": queries, "k": k}, True
+    # tens of thousands of sequences on one side
+    yield "cross_big", {"n_refs": 33500, "n_queries": 40, "k": 1, "np_seed": 3300 + seed}, True
+    if thorough:
+        yield "cross_big", {"n_refs": 66000, "n_queries": 60, "k": 1, "np_seed": 3301 + seed}, True
+        yield "cross_big", {"n_refs": 40, "n_queries": 20001, "k": 1, "np_seed": 3302 + seed, "n_cpu": 4}, True
+        yield "cross_big", {"n_refs": 40, "n_queries": 70001, "k": 1, "np_seed": 3303 + seed, "n_cpu": 3}, True
     # every stored sequence and every query of one single length: pairs that need an insertion plus a deletion (shifts)
     same3 = G.universe("AC", 3, 3)
     for k in (2, 3):
-        yield "lookupdb", {"refs": same3, "queries": same3, "k": k}, True
+        if k == 2 or thorough:
+            yield "lookupdb", {"refs": same3, "queries": same3, "k": k}, True
         yield "cross", {"refs": same3, "queries": same3, "k": k}, True
     yield "lookupdb", {"refs": ["CASLGFF", "CASSLGF", "CAWLGFF"], "queries": ["CASSLGF", "CASLGFF", "ASLGFFC"], "k": 2}, True
     if thorough:
